@@ -175,6 +175,7 @@ type cutInfo struct {
 	Step     string // workload step in progress
 	After    string // name of the last completed operation ("start" at the beginning)
 	Before   string // name of the next operation ("end" at the end)
+	FgAfter  string // name of the last completed FOREGROUND operation: the phase of the store's protocol
 }
 
 func stepKind(st string) string {
@@ -215,21 +216,43 @@ func cutsOf(ops []vfs.Op) []cutInfo {
 		}
 		return st
 	}
-	out := []cutInfo{{Cut: 0, Required: requiredAt(ops, 0), Step: "open", After: "start", Before: nextReal(0)}}
+	fgAfter := "start"
+	out := []cutInfo{{Cut: 0, Required: requiredAt(ops, 0), Step: "open", After: "start", Before: nextReal(0), FgAfter: fgAfter}}
 	for i := range ops {
 		if ops[i].Kind == "mark" {
 			continue
 		}
-		out = append(out, cutInfo{Cut: i + 1, Required: requiredAt(ops, i+1), Step: stepAt(i + 1), After: opName(&ops[i]), Before: nextReal(i + 1)})
+		if ops[i].Class == 'F' {
+			fgAfter = opName(&ops[i])
+		}
+		out = append(out, cutInfo{Cut: i + 1, Required: requiredAt(ops, i+1), Step: stepAt(i + 1), After: opName(&ops[i]), Before: nextReal(i + 1), FgAfter: fgAfter})
 	}
 	return out
 }
 
+// posOf names a crash point for fingerprints: the phase of the store's protocol (the last completed
+// foreground operation; the writer's operations in between do not make a new class) and, for a torn
+// write, the operation in flight and where it was cut.
 func posOf(ci cutInfo, tornName, tearKind string) string {
 	if tornName != "" {
-		return "torn=" + tornName + ":" + tearKind
+		return "fg-after=" + ci.FgAfter + "/torn=" + tornName + ":" + tearKind
 	}
-	return "after=" + ci.After + ",before=" + ci.Before
+	return "fg-after=" + ci.FgAfter
+}
+
+// posOfRecovery names a crash point inside a recovery (depth 2): the last completed operation of
+// the recovery, without the record kind of the writer's operations.
+func posOfRecovery(ci cutInfo, tornName, tearKind string) string {
+	strip := func(n string) string {
+		if i := strings.IndexByte(n, '['); i > 0 && strings.HasPrefix(n, "B:") {
+			return n[:i]
+		}
+		return n
+	}
+	if tornName != "" {
+		return "torn=" + strip(tornName) + ":" + tearKind
+	}
+	return "after=" + strip(ci.After)
 }
 
 // imageAt builds the crash image (cut, tear) of a log.
@@ -343,7 +366,7 @@ func requiredAt(ops []vfs.Op, cut int) int {
 // depth2: recover img once under the log (writer held during reopen, then redelivery), then cut that
 // log: every prefix + torn variants, applied on top of img, is an image of "crash during recovery".
 func (w *world) depth2(img *Image, required int, j *Job) Reply {
-	first, rec := w.evaluate(img, required, evalOpts{Mode: "hold", ContTo: j.ContTo, Light: true})
+	first, rec := w.evaluate(img, required, evalOpts{Mode: "hold", ContTo: j.ContTo})
 	if first.Abandoned {
 		return Reply{D2Total: 0}
 	}
@@ -362,7 +385,7 @@ func (w *world) depth2(img *Image, required int, j *Job) Reply {
 		if ci.Cut == 0 {
 			continue // the image itself
 		}
-		list = append(list, d2img{ci.Cut, 0, posOf(ci, "", ""), ci.After, ""})
+		list = append(list, d2img{ci.Cut, 0, posOfRecovery(ci, "", ""), ci.After, ""})
 		k := ci.Cut
 		for k < len(rec) && rec[k].Kind == "mark" {
 			k++
@@ -371,7 +394,7 @@ func (w *world) depth2(img *Image, required int, j *Job) Reply {
 			for _, t := range tearsOf(&rec[k]) {
 				// during recovery: 1 byte, 1 byte short, record boundaries
 				if t.kind == "1B" || t.kind == "len-1" || strings.HasSuffix(t.kind, "@record-boundary") {
-					list = append(list, d2img{ci.Cut, t.n, posOf(ci, opName(&rec[k]), t.kind), ci.After, opName(&rec[k]) + ":" + t.kind})
+					list = append(list, d2img{ci.Cut, t.n, posOfRecovery(ci, opName(&rec[k]), t.kind), ci.After, opName(&rec[k]) + ":" + t.kind})
 				}
 			}
 		}
@@ -507,6 +530,7 @@ func coordinator() {
 
 	// ---- phase 2: the plan — every cut and torn variant of every log, identical images once
 	seen := map[string]bool{}
+	cutDigest := map[[2]int]string{} // (run, cut) -> digest key of the untorn image there
 	var plan []*planned
 	histInfo := map[string]map[string]interface{}{}
 	schedTried, schedEffective := 0, 0
@@ -564,6 +588,7 @@ func coordinator() {
 			r.Add("cut_in_step:"+stepKind(ci.Step), 1)
 			walLen := len(im.Files["tmp.data"])
 			key := fmt.Sprintf("%s/req%d", dg.sum(), ci.Required)
+			cutDigest[[2]int{ri.idx, ci.Cut}] = key
 			if !seen[key] {
 				seen[key] = true
 				hi["distinct_images_new_to_this_history"] = hi["distinct_images_new_to_this_history"].(int) + 1
@@ -674,8 +699,35 @@ func coordinator() {
 			r.Add("images_with_problems", 1)
 		}
 	}
+	replies := make([]*Reply, len(plan))
 	complete := runJobs(setupPath, core.Opt.Workers, jobs, 3*time.Minute, func(j *Job, rp Reply) {
-		p := plan[j.ID]
+		c := rp
+		replies[j.ID] = &c
+	})
+	holdClasses := map[string]map[string]bool{} // image digest -> problem classes seen with the writer held
+	// untorn images with the writer held first: what they show is the baseline of their torn
+	// neighbours and of the "writer runs during the scan" variant of the same image
+	orderIDs := make([]int, 0, len(plan))
+	for pass := 0; pass < 3; pass++ {
+		for id, p := range plan {
+			cls := 2
+			if p.mode != "eager" {
+				cls = 1
+				if p.tear == 0 {
+					cls = 0
+				}
+			}
+			if cls == pass {
+				orderIDs = append(orderIDs, id)
+			}
+		}
+	}
+	for _, id := range orderIDs {
+		p := plan[id]
+		if replies[id] == nil {
+			continue // internal deadline
+		}
+		rp := *replies[id]
 		if rp.Gor > maxGor {
 			maxGor = rp.Gor
 		}
@@ -686,12 +738,12 @@ func coordinator() {
 		}
 		pos := posOf(p.ci, p.tornName, p.tearKind)
 		if p.mode == "eager" {
-			pos += ",writer-runs-during-scan"
+			pos += "/writer-runs-during-scan"
 		}
 		if rp.Died {
 			if rp.Killed {
 				r.NotExhaustive("a worker was stopped from outside while evaluating: " + p.describe())
-				return
+				continue
 			}
 			// a goroutine nobody owns panicked (or the process exited) while this image was recovered
 			msg := panicLine(rp.DiedMsg)
@@ -700,31 +752,61 @@ func coordinator() {
 			r.Add("problem:process-dies", 1)
 			rs.Class = "process-dies"
 			offer(prop+"/process-dies/"+normMsg(msg)+"/"+pos, "the process died while recovering / continuing: "+msg+" — "+p.describe(), ord, rs)
-			return
+			continue
 		}
 		if rp.Err != "" || rp.Eval == nil {
 			r.NotExhaustive("harness error while evaluating " + p.describe() + ": " + clipTail(rp.Err, 800))
-			return
+			continue
 		}
 		res := rp.Eval
 		handleEval(p, res, "1")
 		if p.mode == "eager" {
 			r.Add("evaluations_writer_runs_during_scan", 1)
+		} else {
+			m := map[string]bool{}
+			for _, pr := range res.Problems {
+				m[pr.Class] = true
+			}
+			holdClasses[p.digest] = m
 		}
-		if len(r.Samples) < 6 && (j.ID%97 == 3) {
+		if len(r.Samples) < 6 && (id%97 == 3) {
 			r.Sample(map[string]string{"image": p.describe(), "outcome": res.outcome()})
+		}
+		accountsWrong := false
+		for _, pr := range res.Problems {
+			if strings.HasPrefix(pr.Class, "account-data-not-of-the-stable-block/") {
+				accountsWrong = true
+			}
 		}
 		for _, pr := range res.Problems {
 			r.Add("problem:"+pr.Class, 1)
+			if p.mode == "eager" && holdClasses[p.digest][pr.Class] {
+				continue // reported for the same image with the writer held
+			}
+			if accountsWrong && strings.HasPrefix(pr.Class, "later-block-rejected/") {
+				// the same image is reported for its account data; a node that executes the next block
+				// on other accounts than the stable block's derives other hashes: one finding, not two
+				r.Add("later_block_rejected_on_images_reported_for_their_account_data", 1)
+				continue
+			}
+			fpos := pos
+			if p.tear > 0 && holdClasses[cutDigest[[2]int{p.run.idx, p.ci.Cut}]][pr.Class] {
+				// the image without the torn write shows the same: the crash point's phase is the
+				// class, the tear adds nothing
+				fpos = posOf(p.ci, "", "")
+				if p.mode == "eager" {
+					fpos += "/writer-runs-during-scan"
+				}
+			}
 			rs.Class = pr.Class
-			offer(prop+"/"+pr.Class+"/"+pos, pr.Detail+" — "+p.describe(), ord, rs)
+			offer(prop+"/"+pr.Class+"/"+fpos, pr.Detail+" — "+p.describe(), ord, rs)
 		}
 		if p.d2 && !res.Abandoned {
-			id := len(d2jobs)
-			d2jobs = append(d2jobs, &Job{ID: id, Kind: "d2", RunFile: p.run.file, Cut: p.ci.Cut, Tear: p.tear, ContTo: cfg.ContTo})
-			d2parent[id] = p
+			did := len(d2jobs)
+			d2jobs = append(d2jobs, &Job{ID: did, Kind: "d2", RunFile: p.run.file, Cut: p.ci.Cut, Tear: p.tear, ContTo: cfg.ContTo})
+			d2parent[did] = p
 		}
-	})
+	}
 	if !complete {
 		r.NotExhaustive("internal deadline reached while evaluating crash images")
 	}
